@@ -5,7 +5,7 @@
    the script [ops] and returns [(ret, err)]; [cm] = status line sent, [sup] = number of
    superfluous WriteHeader calls that reached net/http, [view] = (garbled?, body after undoing
    the gzip coding announced by Content-Encoding); [et code] is DefaultErrorFunc's text. *)
-Require Import V.Lib V.C12_Model V.C12_Proofs.
+Require Import V.Lib V.C12_Model V.C12_Proofs V.C12_Proofs2.
 Open Scope Z_scope.
 Local Open Scope string_scope.
 
@@ -22,7 +22,8 @@ Print Assumptions C12_exactly_one_response.
    is one (specific before `*`), the debug message under `errors visible`, else the plain text. *)
 Theorem C12_error_status_gets_body :
   forall et c path ae ops ret err,
-  forallb set_ok ops = true -> status_rule c path = None -> 400 <= ret <= 999 ->
+  forallb set_ok ops = true -> redir_hit c path = false -> status_rule c path = None -> internal_hit c path = false ->
+  400 <= ret <= 999 ->
   let x := serve et c path ae ops ret err in
   cm x = Some ret /\ sup x = 0%nat /\ view x = (false, expected_error_body et c path ret err).
 Proof. exact error_status_gets_body. Qed.
@@ -30,15 +31,16 @@ Print Assumptions C12_error_status_gets_body.
 
 Example C12_error_status_gets_body_nonvacuous :
   let c := {| c_reqid := true; c_limits := true; c_log := true; c_rewrite := true; c_gzip := true; c_header := true;
-              c_errors := EPages [(404, Some (bs "page"))] None; c_status := None; c_mime := true; c_templates := true |} in
-  forallb set_ok [OSet K_XPROBE (bs "v")] = true /\ status_rule c (bs "/x.html") = None /\
+              c_errors := EPages [(404, Some (bs "page"))] None; c_redir := true; c_status := None; c_mime := true; c_internal := true; c_templates := true |} in
+  forallb set_ok [OSet K_XPROBE (bs "v")] = true /\ redir_hit c (bs "/x.html") = false /\ status_rule c (bs "/x.html") = None /\
+  internal_hit c (bs "/x.html") = false /\
   view (serve (fun _ => bs "text") c (bs "/x.html") true [OSet K_XPROBE (bs "v")] 404 false) = (false, bs "page").
 Proof. vm_compute. repeat split; reflexivity. Qed.
 
 (* The same when the `status` directive answers instead of the inner handlers. *)
 Theorem C12_status_directive_error_gets_body :
   forall et c path ae ops ret err s,
-  status_rule c path = Some s -> 400 <= s <= 999 ->
+  redir_hit c path = false -> status_rule c path = Some s -> 400 <= s <= 999 ->
   let x := serve et c path ae ops ret err in
   cm x = Some s /\ sup x = 0%nat /\ view x = (false, expected_error_body et c path s false).
 Proof. exact status_rule_error. Qed.
@@ -49,7 +51,7 @@ Print Assumptions C12_status_directive_error_gets_body.
    panic dump under `errors visible`, else the plain text. *)
 Theorem C12_panic_before_write_gets_500 :
   forall et c path ae ops rest ret err,
-  forallb set_ok ops = true -> status_rule c path = None ->
+  forallb set_ok ops = true -> redir_hit c path = false -> status_rule c path = None -> internal_hit c path = false ->
   let x := serve et c path ae (ops ++ OPanic :: rest) ret err in
   cm x = Some 500 /\ sup x = 0%nat /\
   view x = (false, match c_errors c with
@@ -57,8 +59,8 @@ Theorem C12_panic_before_write_gets_500 :
                    | _ => expected_error_body et c path 500 false
                    end).
 Proof.
-  intros et c path ae ops rest ret err Hs Hr. rewrite <- (panic_body_spec et c path).
-  exact (panic_before_write_500 et c path ae ops rest ret err Hs Hr).
+  intros et c path ae ops rest ret err Hs Hrd Hr Hit. rewrite <- (panic_body_spec et c path).
+  exact (panic_before_write_500 et c path ae ops rest ret err Hs Hrd Hr Hit).
 Qed.
 Print Assumptions C12_panic_before_write_gets_500.
 
@@ -72,7 +74,7 @@ Print Assumptions C12_panic_before_write_gets_500.
    logs the error of a handler that has answered instead of writing it into the response. *)
 Theorem C12_written_response_unaltered :
   forall et c path ae sets s ws ret err,
-  forallb set_ok sets = true -> status_rule c path = None ->
+  forallb set_ok sets = true -> redir_hit c path = false -> status_rule c path = None -> internal_hit c path = false ->
   valid_code s = true -> bodyless s = false -> ret < 400 ->
   (should_buffer (tmode_of c path) (hs_fun sets []) = true -> ret < 300 -> err = false ->
    contains (wbody ws) TPL_OPEN = false) ->
@@ -83,7 +85,7 @@ Print Assumptions C12_written_response_unaltered.
 
 Example C12_written_response_unaltered_nonvacuous :
   let c := {| c_reqid := false; c_limits := false; c_log := true; c_rewrite := false; c_gzip := true; c_header := true;
-              c_errors := EDebug; c_status := None; c_mime := false; c_templates := true |} in
+              c_errors := EDebug; c_redir := true; c_status := None; c_mime := true; c_internal := true; c_templates := true |} in
   should_buffer (tmode_of c (bs "/x.html")) (hs_fun [] []) = true /\
   contains (wbody [WWr (bs "he"); WFl; WWr (bs "llo")]) TPL_OPEN = false /\
   (let x := serve (fun _ => []) c (bs "/x.html") true ([] ++ OWh 404 :: map wop_op [WWr (bs "he"); WFl; WWr (bs "llo")]) 0 false in
@@ -112,7 +114,7 @@ Print Assumptions C12_implicit_header.
    Flush before the header): status 200, the chunks as written, no superfluous WriteHeader. *)
 Theorem C12_single_commit :
   forall et c path ae sets w ws ret err,
-  forallb set_ok sets = true -> status_rule c path = None -> ret < 400 ->
+  forallb set_ok sets = true -> redir_hit c path = false -> status_rule c path = None -> internal_hit c path = false -> ret < 400 ->
   (should_buffer (tmode_of c path) (hs_fun sets []) = true -> ret < 300 -> err = false ->
    contains (wbody (w :: ws)) TPL_OPEN = false) ->
   let x := serve et c path ae (sets ++ map wop_op (w :: ws)) ret err in
@@ -122,7 +124,7 @@ Print Assumptions C12_single_commit.
 
 Example C12_single_commit_nonvacuous :
   let c := {| c_reqid := false; c_limits := false; c_log := true; c_rewrite := false; c_gzip := true; c_header := true;
-              c_errors := EDebug; c_status := None; c_mime := false; c_templates := true |} in
+              c_errors := EDebug; c_redir := true; c_status := None; c_mime := true; c_internal := true; c_templates := true |} in
   (* Flush before the header behind header + gzip + templates (buffering, then streaming) *)
   (let x := serve (fun _ => []) c (bs "/x.html") true ([OSet K_XDEL (bs "gone")] ++ map wop_op [WFl; WWr (bs "hello")]) 0 false in
    cm x = Some 200 /\ sup x = 0%nat /\ view x = (false, bs "hello") /\ hget (csnap x) K_XDEL = None) /\
@@ -130,12 +132,231 @@ Example C12_single_commit_nonvacuous :
    cm x = Some 200 /\ sup x = 0%nat /\ view x = (false, bs "hello")).
 Proof. vm_compute. repeat split; reflexivity. Qed.
 
-(* request_id, limits and mime never change the response. *)
+(* request_id and limits (as long as the handler does not read an oversized request body: see
+   C12_limits_413) never change the response.  mime does (it sets Content-Type): the earlier
+   claim that it never matters is refuted; what remains true is covered by the theorems above,
+   which hold with and without mime. *)
 Theorem C12_transparent_directives :
-  forall et c path ae ops ret err r l m,
+  forall et c path ae ops ret err r l,
   serve et {| c_reqid := r; c_limits := l; c_log := c_log c; c_rewrite := c_rewrite c; c_gzip := c_gzip c;
-              c_header := c_header c; c_errors := c_errors c; c_status := c_status c; c_mime := m;
-              c_templates := c_templates c |} path ae ops ret err
+              c_header := c_header c; c_errors := c_errors c; c_redir := c_redir c; c_status := c_status c;
+              c_mime := c_mime c; c_internal := c_internal c; c_templates := c_templates c |} path ae ops ret err
   = serve et c path ae ops ret err.
 Proof. exact serve_transparent. Qed.
 Print Assumptions C12_transparent_directives.
+
+Definition c12_cfg0 : cfg :=
+  {| c_reqid := false; c_limits := false; c_log := false; c_rewrite := false; c_gzip := false; c_header := false;
+     c_errors := ENone; c_redir := false; c_status := None; c_mime := false; c_internal := false; c_templates := false |}.
+Definition c12_with_mime (c : cfg) (m : bool) : cfg :=
+  {| c_reqid := c_reqid c; c_limits := c_limits c; c_log := c_log c; c_rewrite := c_rewrite c; c_gzip := c_gzip c;
+     c_header := c_header c; c_errors := c_errors c; c_redir := c_redir c; c_status := c_status c;
+     c_mime := m; c_internal := c_internal c; c_templates := c_templates c |}.
+Theorem C12_mime_transparent_refuted :
+  exists et c path ae ops ret err,
+  observe (serve et (c12_with_mime c true) path ae ops ret err) <> observe (serve et (c12_with_mime c false) path ae ops ret err).
+Proof.
+  exists (fun _ => []), c12_cfg0, (bs "/x.txt"), false, [OWr (bs "a")], 0, false. vm_compute. discriminate.
+Qed.
+Print Assumptions C12_mime_transparent_refuted.
+
+(* ===================== panic containment at full strength ===================== *)
+
+(* A panic AFTER the handler has started writing (header sets, WriteHeader s, any Writes and
+   Flushes, then the panic), for EVERY configuration. What the client sees, exactly:
+   - templates was not buffering: the status s the handler committed, and the chunks written
+     so far followed by the error body of whoever recovers (errors' page for 500 / panic dump /
+     plain text; without `errors`: log's or the server's "500 Internal Server Error" text) -
+     ungarbled: with gzip the error text goes through the same compressor -; net/http logs
+     exactly one superfluous WriteHeader (the recoverer's WriteHeader(500)), none when header's
+     wrapper is there to swallow it: this is the exception the property states, and it is at
+     most one;
+   - templates was buffering: nothing had reached the connection; the buffered response is
+     dropped and the request ends exactly like a panic before writing: 500 once, error body. *)
+Theorem C12_panic_after_write_contained :
+  forall et c path ae sets s ws rest ret err,
+  forallb set_ok sets = true -> redir_hit c path = false -> status_rule c path = None -> internal_hit c path = false ->
+  valid_code s = true -> bodyless s = false ->
+  let x := serve et c path ae (sets ++ OWh s :: map wop_op ws ++ OPanic :: rest) ret err in
+  (should_buffer (tmode_of c path) (hs_fun sets []) = false ->
+     cm x = Some s /\ sup x = panic_sup c /\ (sup x <= 1)%nat /\ view x = (false, wbody ws ++ panic_body et c)) /\
+  (should_buffer (tmode_of c path) (hs_fun sets []) = true ->
+     cm x = Some 500 /\ sup x = 0%nat /\ view x = (false, panic_body et c)).
+Proof.
+  intros et c path ae sets s ws rest ret err Hs Hrd Hr Hit Hv Hb. cbv zeta. split; intro Hsb.
+  - destruct (panic_after_write_streamed et c path ae sets s ws rest ret err Hs Hrd Hr Hit Hv Hb Hsb) as (A & B & C).
+    repeat split; try assumption. rewrite B. unfold panic_sup. destruct (errors_on c && c_header c); auto.
+  - exact (panic_after_write_buffered et c path ae sets s ws rest ret err Hs Hrd Hr Hit Hsb).
+Qed.
+Print Assumptions C12_panic_after_write_contained.
+
+Example C12_panic_after_write_contained_nonvacuous :
+  let c := {| c_reqid := false; c_limits := false; c_log := true; c_rewrite := false; c_gzip := true; c_header := false;
+              c_errors := EPages [(500, Some (bs "<page>"))] None; c_redir := true; c_status := None; c_mime := true; c_internal := true; c_templates := true |} in
+  (let x := serve (fun _ => bs "text") c (bs "/x.txt") true ([] ++ OWh 201 :: map wop_op [WWr (bs "he"); WFl; WWr (bs "llo")] ++ OPanic :: [OWr (bs "never")]) 0 false in
+   should_buffer (tmode_of c (bs "/x.txt")) (hs_fun [] []) = false /\
+   cm x = Some 201 /\ sup x = 1%nat /\ view x = (false, bs "hello<page>")) /\
+  (let x := serve (fun _ => bs "text") c (bs "/x.html") true ([] ++ OWh 201 :: map wop_op [WWr (bs "hello")] ++ OPanic :: []) 0 false in
+   should_buffer (tmode_of c (bs "/x.html")) (hs_fun [] []) = true /\
+   cm x = Some 500 /\ sup x = 0%nat /\ view x = (false, bs "<page>")).
+Proof. vm_compute. repeat split; reflexivity. Qed.
+
+(* Server state: the only objects that outlive a request are the pooled gzip.Writer and
+   bytes.Buffer, returned to their pools by deferred calls that also run during a panic, in
+   whatever state the request leaves them ([serve_srv] puts [gz_pend]/[b_buf] back); both are
+   reset when they are handed out ([gw_reset], [buf_reset]); the recorder, its replacer, header's
+   wrapper and every flag of the writer stack are allocated per request ([st0]).  Hence, for
+   EVERY initial content of the pools and EVERY sequence of requests (panicking ones
+   included), each response is the response to that request served alone by a fresh server:
+   a function of the request and the configuration only. *)
+Theorem C12_requests_independent :
+  forall et c sv qs, run_hist et c sv qs = map (serve_req et c) qs.
+Proof. intros et c sv qs. exact (requests_independent et c qs sv). Qed.
+Print Assumptions C12_requests_independent.
+
+(* In particular the response to request k+1, whatever requests 1..k did *)
+Theorem C12_next_request_unaffected :
+  forall et c sv hist q, last (run_hist et c sv (hist ++ [q])) st0 = serve_req et c q.
+Proof. exact last_response_independent. Qed.
+Print Assumptions C12_next_request_unaffected.
+
+(* and the server after any history answers every request as it did before it *)
+Theorem C12_server_state_unchanged :
+  forall et c sv hist q,
+  fst (serve_srv et c (srv_after et c sv hist) q) = fst (serve_srv et c sv q).
+Proof. exact server_equivalent_after. Qed.
+Print Assumptions C12_server_state_unchanged.
+
+(* the pools are not trivially empty: a panicking request does leave its buffer behind *)
+Example C12_requests_independent_nonvacuous :
+  let c := {| c_reqid := false; c_limits := false; c_log := false; c_rewrite := false; c_gzip := true; c_header := false;
+              c_errors := ENone; c_redir := false; c_status := None; c_mime := false; c_internal := false; c_templates := true |} in
+  let q := {| q_path := bs "/x.html"; q_ae := true; q_blen := 0%N; q_rd := None;
+              q_ops := [OWr (bs "left behind"); OPanic]; q_ret := 0; q_err := false |} in
+  buf_pool (srv_after (fun _ => []) c srv0 [q]) = [bs "left behind"].
+Proof. vm_compute. reflexivity. Qed.
+
+(* ===================== single commit for ALL scripts ===================== *)
+
+(* The handler contract (httpserver.Handler's doc + net/http): WriteHeader at most once, before
+   anything is written or flushed, with a status 200..999; a handler that has written returns a
+   status below 400; a returned error status is at most 999 [handler_contract].  For EVERY
+   script under the contract that does not panic after writing - any interleaving of header
+   sets (Content-Encoding included), Writes and Flushes, with or without WriteHeader, bodyless
+   statuses, a panic before writing, a template that does not parse - and EVERY configuration
+   (status/redir/internal rules matching or not), net/http sees exactly one header commit. *)
+Theorem C12_single_commit_all :
+  forall et c path ae ops ret err,
+  handler_contract ops ret = true -> panics_after_write ops = false -> status_ok c = true ->
+  sup (serve et c path ae ops ret err) = 0%nat /\ exists s, cm (serve et c path ae ops ret err) = Some s.
+Proof.
+  intros et c path ae ops ret err Hc Hp Hs. split.
+  - exact (single_commit_all et c path ae ops ret err Hc Hp Hs).
+  - apply serve_committed.
+Qed.
+Print Assumptions C12_single_commit_all.
+
+Example C12_single_commit_all_nonvacuous :
+  let ops := [OSet K_CE (bs "br"); OFl; OSet K_CT V_HTML; OWr (bs "a"); OFl; OWr (bs "{{")] in
+  let c := {| c_reqid := true; c_limits := true; c_log := true; c_rewrite := true; c_gzip := true; c_header := true;
+              c_errors := EDebug; c_redir := true; c_status := Some 204; c_mime := true; c_internal := true; c_templates := true |} in
+  handler_contract ops 0 = true /\ panics_after_write ops = false /\ status_ok c = true /\
+  handler_contract [OSet K_CT V_HTML; OWh 204; OWr (bs "x")] 204 = true /\
+  handler_contract [OSet K_CT V_HTML; OPanic; OWh 0] 7 = true /\ handler_contract [] 999 = true.
+Proof. vm_compute. repeat split; reflexivity. Qed.
+
+(* Outside the contract the statement is false: a handler that calls WriteHeader twice, or
+   writes and then reports an error status, makes net/http log a superfluous WriteHeader. *)
+Theorem C12_single_commit_all_refuted :
+  (exists et c path ae ops ret err, panics_after_write ops = false /\ status_ok c = true /\
+     handler_contract ops ret = false /\ sup (serve et c path ae ops ret err) = 1%nat) /\
+  (exists et c path ae ops ret err, panics_after_write ops = false /\ status_ok c = true /\
+     wh_first false ops = true /\ sup (serve et c path ae ops ret err) = 1%nat).
+Proof.
+  split.
+  - exists (fun _ => []), c12_cfg0, (bs "/x"), false, [OWh 200; OWh 404], 0, false. vm_compute. repeat split; reflexivity.
+  - exists (fun _ => []), c12_cfg0, (bs "/x"), false, [OWr (bs "a")], 404, false. vm_compute. repeat split; reflexivity.
+Qed.
+Print Assumptions C12_single_commit_all_refuted.
+
+(* ===================== directives that answer themselves ===================== *)
+
+(* redir: the rule matches - exactly one response, 302 with http.Redirect's body, whatever the
+   other directives and the inner handler (which is not called) *)
+Theorem C12_redir_answers :
+  forall et c path ae ops ret err, redir_hit c path = true ->
+  let x := serve et c path ae ops ret err in
+  cm x = Some 302 /\ sup x = 0%nat /\ view x = (false, REDIR_BODY).
+Proof. exact redir_answers. Qed.
+Print Assumptions C12_redir_answers.
+
+(* internal: an internal location is answered 404 with the error body of the configuration *)
+Theorem C12_internal_location_hidden :
+  forall et c path ae ops ret err,
+  redir_hit c path = false -> status_rule c path = None -> internal_hit c path = true ->
+  let x := serve et c path ae ops ret err in
+  cm x = Some 404 /\ sup x = 0%nat /\ view x = (false, expected_error_body et c path 404 false).
+Proof. exact internal_hidden. Qed.
+Print Assumptions C12_internal_location_hidden.
+
+Example C12_self_answering_nonvacuous :
+  let c := {| c_reqid := false; c_limits := false; c_log := true; c_rewrite := true; c_gzip := true; c_header := true;
+              c_errors := EPlain; c_redir := true; c_status := Some 403; c_mime := true; c_internal := true; c_templates := true |} in
+  redir_hit c (bs "/rd") = true /\
+  (redir_hit c (bs "/int/x") = false /\ status_rule c (bs "/int/x") = None /\ internal_hit c (bs "/int/x") = true).
+Proof. vm_compute. repeat split; reflexivity. Qed.
+
+(* limits: a handler that reads a request body longer than the limit before writing returns
+   (413, err) - the client receives 413 with the error body; otherwise limits is transparent *)
+Theorem C12_limits_413 :
+  forall et c q n,
+  c_limits c = true -> (LIMIT < q_blen q)%N -> q_rd q = Some n ->
+  forallb set_ok (firstn n (q_ops q)) = true ->
+  redir_hit c (q_path q) = false -> status_rule c (q_path q) = None -> internal_hit c (q_path q) = false ->
+  let x := serve_req et c q in
+  cm x = Some 413 /\ sup x = 0%nat /\ view x = (false, expected_error_body et c (q_path q) 413 true).
+Proof. exact limits_413. Qed.
+Print Assumptions C12_limits_413.
+Theorem C12_limits_transparent :
+  forall et c q, (q_rd q = None \/ (q_blen q <= LIMIT)%N \/ c_limits c = false) ->
+  serve_req et c q = serve et c (q_path q) (q_ae q) (q_ops q) (q_ret q) (q_err q).
+Proof. exact limits_transparent. Qed.
+Print Assumptions C12_limits_transparent.
+
+(* ===================== which error body ===================== *)
+
+(* The body served for an error status, for every (status, configuration), clause by clause
+   [error_body_table]: errors visible + error -> the message; page configured for the status and
+   readable -> it; configured but unreadable -> the plain text (NOT the `*` page); no page for
+   the status: the `*` page if readable, else the plain text. With the text being
+   "<code> <reason phrase>\n", the reason phrase empty for statuses net/http has no text for. *)
+Theorem C12_error_body_table :
+  forall et c path code err, expected_error_body et c path code err = error_body_table et c path code err.
+Proof. exact error_body_table_eq. Qed.
+Print Assumptions C12_error_body_table.
+
+Theorem C12_error_text_no_reason_phrase :
+  std_errtext 599 = bs "599 " ++ [10%N] /\ std_errtext 404 = bs "404 Not Found" ++ [10%N] /\
+  forall et c path ae,
+  c_errors c = EPages [(404, None); (500, Some (bs "p500"))] (Some (Some (bs "generic"))) ->
+  redir_hit c path = false -> status_rule c path = None -> internal_hit c path = false ->
+  view (serve et c path ae [] 404 false) = (false, et 404) /\     (* unreadable page: plain text, not `*` *)
+  view (serve et c path ae [] 500 false) = (false, bs "p500") /\
+  view (serve et c path ae [] 599 false) = (false, bs "generic").
+Proof.
+  split; [reflexivity|]. split; [reflexivity|].
+  intros et c path ae He H1 H2 H3.
+  destruct (error_status_gets_body et c path ae [] 404 false eq_refl H1 H2 H3 ltac:(lia)) as (_ & _ & V1).
+  destruct (error_status_gets_body et c path ae [] 500 false eq_refl H1 H2 H3 ltac:(lia)) as (_ & _ & V2).
+  destruct (error_status_gets_body et c path ae [] 599 false eq_refl H1 H2 H3 ltac:(lia)) as (_ & _ & V3).
+  rewrite V1, V2, V3. unfold expected_error_body. rewrite He. repeat split; reflexivity.
+Qed.
+Print Assumptions C12_error_text_no_reason_phrase.
+
+(* The order in which [chain_p] nests the directives (limits outermost ... templates innermost)
+   is the order of httpserver's directive list as extracted from /repo (Gen_C09.gen_directives,
+   regenerated by setup.sh): computed. *)
+Theorem C12_nesting_is_directive_order :
+  strictly_increasing (map (fun k => pos_in V.Gen_C09.gen_directives k 0) chain_order) = true.
+Proof. exact nesting_is_directive_order. Qed.
+Print Assumptions C12_nesting_is_directive_order.
